@@ -95,7 +95,7 @@ func resolveDeadline(p *Prog) *dlRoles {
 		return r
 	}
 	// exceeded: the constant the callback stores to state; started: the constant stored in Set on the arming path
-	instrsOf(r.Timeout, func(in ssa.Instruction) {
+	instrsOfU(r.Timeout, func(in ssa.Instruction) {
 		if st, ok := in.(*ssa.Store); ok && isFieldStore(in, r.T, r.state) {
 			if k, ok := constInt(st.Val); ok {
 				r.stExceeded = k
@@ -147,7 +147,39 @@ func (r *dlRoles) isCloseDone(in ssa.Instruction) bool {
 		return false
 	}
 	a := in.(ssa.CallInstruction).Common().Args[0]
-	return isFieldLoad(a, r.T, r.done)
+	return len(r.doneLoads(a)) > 0
+}
+
+// doneLoads: the loads of the done field a value stands for: the load itself, or what a private helper hands
+// back (the channel read under the lock, or nil when there is nothing to close).
+func (r *dlRoles) doneLoads(a ssa.Value) []ssa.Value {
+	if isFieldLoad(a, r.T, r.done) {
+		return []ssa.Value{origin(a)}
+	}
+	o := origin(a)
+	var call *ssa.Call
+	idx := 0
+	switch x := o.(type) {
+	case *ssa.Call:
+		call = x
+	case *ssa.Extract:
+		call, _ = x.Tuple.(*ssa.Call)
+		idx = x.Index
+	}
+	if call == nil || helperCallee(call) == nil {
+		return nil
+	}
+	var out []ssa.Value
+	for _, rv := range returnedValues(helperCallee(call), idx) {
+		if isNilConst(rv) {
+			continue
+		}
+		if !isFieldLoad(rv, r.T, r.done) {
+			return nil
+		}
+		out = append(out, origin(rv))
+	}
+	return out
 }
 
 func (r *dlRoles) stName(k int64) string {
@@ -584,11 +616,13 @@ func deadlineRules(c *Ctx, prefix string) {
 			}
 		}
 		// the closed channel is the value read under the lock
-		for _, in := range findInstrs(r.Timeout, r.isCloseDone) {
+		for _, in := range findU(r.Timeout, r.isCloseDone) {
 			arg := in.(ssa.CallInstruction).Common().Args[0]
-			if ld, ok := arg.(*ssa.UnOp); ok {
-				if !la.holds(ld, r.Timeout.Params[0].Name()+"."+r.mu, false) {
-					o5.Fail(in.Pos(), "the channel to close is read outside the lock: a concurrent Set may have replaced it (wrong channel closed)")
+			for _, lv := range r.doneLoads(arg) {
+				if ld, ok := lv.(*ssa.UnOp); ok {
+					if !la.holdsOwner(ld, r.T, false) {
+						o5.Fail(in.Pos(), "the channel to close is read outside the lock: a concurrent Set may have replaced it (wrong channel closed)")
+					}
 				}
 			}
 		}
@@ -617,6 +651,36 @@ func deadlineRules(c *Ctx, prefix string) {
 		}
 		if len(vals) == 0 {
 			vals = append(vals, ret.(*ssa.Return).Results...)
+		}
+		// a table indexed by the state: every state's entry is checked against the rule
+		if len(vals) == 1 {
+			if ld, ok := origin(vals[0]).(*ssa.UnOp); ok && ld.Op == token.MUL {
+				if ia, ok := ld.X.(*ssa.IndexAddr); ok {
+					if g, ok := ia.X.(*ssa.Global); ok && isFieldLoad(strip(ia.Index), r.T, r.state) {
+						tbl, size, okT := globalTable(p, g)
+						if !okT {
+							o7.Undecide("Err reads %s[state], which is not a table filled once by the package initialiser", g.Name())
+							continue
+						}
+						o7.Site(ret.Pos(), "returns %s[state] (%d entries)", g.Name(), size)
+						for _, st := range []int64{r.stStopped, r.stStarted, r.stExceeded} {
+							if st >= size {
+								o7.Fail(ret.Pos(), "state %s is outside the table %s: Err would panic", r.stName(st), g.Name())
+								continue
+							}
+							e := tbl[st]
+							isNil := e == nil || isNilConst(e)
+							if st == r.stExceeded && (isNil || !isGlobalErrValue(e, "context", "DeadlineExceeded")) {
+								o7.Fail(ret.Pos(), "the table entry of the exceeded state is not context.DeadlineExceeded")
+							}
+							if st != r.stExceeded && !isNil {
+								o7.Fail(ret.Pos(), "the table reports an error in state %s", r.stName(st))
+							}
+						}
+						continue
+					}
+				}
+			}
 		}
 		for _, v := range vals {
 			isNil := isNilConst(v)
